@@ -39,10 +39,10 @@ H=/verif/harness
 # rebuild the driver when any harness source or the library is newer
 if [ ! -x $DRV/drv ] || [ -n "$(find $H $LIB/src/libascon_static.a -newer $DRV/drv -print -quit)" ]; then
   SHARES=$(grep -h "define ASCON_MASKED_.*SHARES\|define ASCON_MASKED_MAX" $LIB/version.h 2>/dev/null | tr '\n' ' ')
-  WRAP="-Wl,--wrap=ascon_trng_generate,--wrap=ascon_trng_generate_64,--wrap=ascon_trng_generate_32"
+  WRAP="-Wl,--wrap=ascon_trng_generate,--wrap=ascon_trng_generate_64,--wrap=ascon_trng_generate_32,--wrap=ascon_permute"
   # realmask: the masking randomness comes from the library's own TRNG mixer (only the system
   # entropy source stays substituted), so that the mixer's use of a permutation state is exercised
-  [ $REALMASK = 1 ] && WRAP="-Wl,--wrap=ascon_trng_generate"
+  [ $REALMASK = 1 ] && WRAP="-Wl,--wrap=ascon_trng_generate,--wrap=ascon_permute"
   g++ -std=c++11 $DRVF $DEFS -Wall -Wno-unused-function -DHAVE_CONFIG_H -I$REPO/src -I$LIB -I$H \
       $(ls $H/drv_*.cpp $H/wrap_trng.cpp) $H/tramp_x86_64.S $LIB/src/libascon_static.a \
       $WRAP \
